@@ -4,12 +4,14 @@
 Require Extraction.
 Require Import ExtrOcamlBasic.
 From Coq Require Import NArith ZArith Ascii String.
-From PM Require Import Model.Varint Model.Directory Model.Iterate Model.TileId Gen.Generated Model.Header Model.FindTile Model.DirBuild Model.Resolver Model.Archive Model.Verify Model.Cluster Model.PathParse Model.PathSafe Model.Bucket Model.Http Model.Server Model.ServerRun.
+From PM Require Import Model.Varint Model.Directory Model.Iterate Model.TileId Gen.Generated Model.Header Model.FindTile Model.DirBuild Model.Resolver Model.Archive Model.Verify Model.Cluster Model.PathParse Model.PathSafe Model.Bucket Model.Http Model.Server Model.ServerRun Model.F32 Model.Extract Model.ExtractCmd.
+From Flocq Require Import IEEE754.Bits.
 Extraction "model.ml"
   N.add N.mul N.sub N.div_eucl N.of_nat N.to_nat N.compare N.eqb Z.add Z.mul Z.div_eucl Z.of_N Z.to_N Z.opp
   put_uvarint read_uvarint serialize_entries deserialize_entries deserialize_res
   iterate_table
   zxy_to_id id_to_zxy parent_id
+  relevant_entries reencode merge_ranges plan_ok budget_f32 total_len extract_model b32_of_bits
   macro xinit pending_calls status_body CVersion Model.Server.init
   serve_http Ascii.N_of_ascii
   read_mock read_file read_http origin adapter_class
